@@ -6,6 +6,7 @@ use serde_json::Value;
 pub mod c01;
 pub mod c02;
 pub mod c03;
+pub mod c03conn;
 pub mod c04;
 pub mod c05;
 pub mod c06;
@@ -18,6 +19,7 @@ pub mod c11;
 pub mod c12;
 pub mod c13;
 pub mod c14;
+pub mod c14tls;
 pub mod c15;
 pub mod c16;
 pub mod c17;
